@@ -53,6 +53,10 @@ pub struct Scenario {
     /// Engine *rx* (C10, C16): when present the world is not used.
     #[serde(default)]
     pub rx: Option<crate::rx::RxCfg>,
+    /// Build variant of profirust the violation was found with ("noassert": no debug assertions, no
+    /// overflow checks); `./check replay` picks the matching simulator binary.
+    #[serde(default, skip_serializing_if = "Option::is_none")]
+    pub build: Option<String>,
 }
 
 #[derive(Serialize, Deserialize, Clone, Debug, Default)]
@@ -260,6 +264,10 @@ pub struct SlaveCfg {
     pub sc_for_empty: bool,
     /// Watchdog honoured by the model (ms); the slave falls back to Wait_Prm when it expires.
     pub honour_watchdog: bool,
+    /// Response status of the answers to FDL status requests (0 = OK; a station may also answer
+    /// RR, UE, RS ... and is alive all the same).
+    #[serde(default)]
+    pub fdl_status_code: u8,
 }
 
 #[derive(Serialize, Deserialize, Clone, Debug)]
@@ -340,6 +348,12 @@ pub enum FaultKind {
     GoOffline { station: usize },
     GoOnline { station: usize },
     ClockJump { station: usize, delta_us: i64 },
+    /// Partition on a bus, receive side: the station hears nothing for this long (stub line broken,
+    /// receiver disabled); its own transmissions still reach the others.
+    Deaf { station: usize, us: u64 },
+    /// Partition on a bus, transmit side: what the station sends reaches nobody for this long; it
+    /// still hears the others.
+    Mute { station: usize, us: u64 },
     // slaves
     SlavePower { slave: usize, on: bool },
     /// The next `count` replies of the slave are replaced by `shape`.
@@ -382,6 +396,9 @@ pub enum ByzShape {
     Garbage(Vec<u8>),
     /// Valid reply immediately followed (same transmission) by extra bytes.
     Trailing(Vec<u8>),
+    /// The reply is cut off after this many bytes (at least 1, less than the whole): an incomplete
+    /// telegram stays in the receivers' buffers.
+    Truncated(u8),
     /// Diagnostics reply with these extended-diagnostics bytes.
     ExtDiag(Vec<u8>),
 }
